@@ -277,6 +277,7 @@ func runWith(p *prop, tier string, work string, bins map[string]string) int {
 	ctx, cancel := context.WithCancel(context.Background())
 	defer cancel()
 	sem := make(chan struct{}, par)
+	var acquireMu sync.Mutex
 	results := make([]result, len(units))
 	var wg sync.WaitGroup
 	for i, u := range units {
@@ -290,9 +291,13 @@ func runWith(p *prop, tier string, work string, bins map[string]string) int {
 			if w > par {
 				w = par
 			}
+			// take all w slots while holding acquireMu: only one unit at a time is part-way through
+			// acquiring, so two multi-slot units can never starve each other
+			acquireMu.Lock()
 			for k := 0; k < w; k++ {
 				sem <- struct{}{}
 			}
+			acquireMu.Unlock()
 			defer func() {
 				for k := 0; k < w; k++ {
 					<-sem
